@@ -75,6 +75,9 @@ let node_s (now : n) (m : node) : string =
       (join_or fol) (join_or pend) (join_or ro) (b01 m.n_should_verify)
       (b01 (lease_valid now m)) (b01 (recent_contact now m)) partial
       (join_or (List.map ns m.n_fsm)) (join_or applies) ^ Printf.sprintf " iswait=%d" (List.length m.n_iswait)
+      ^ " snap=" ^ (match List.rev m.n_snaps with
+                    | [] -> "-"
+                    | s :: _ -> Printf.sprintf "%s:%s:%s:%d" (ns s.s_index) (ns s.s_term) (conf_s s.s_conf) (List.length s.s_data))
   end
 
 let req_s = function
@@ -421,7 +424,12 @@ let monitor_tail (m : mon) (o : obs) =
       let (_, ls) = List.hd leaders in
       List.iter (fun (id, s) ->
           if field s "fsm" <> field ls "fsm" then
-            violate m "C15" (Printf.sprintf "node %s did not catch up: fsm %s vs leader %s" id (field s "fsm") (field ls "fsm"))) members
+            begin
+              violate m "C15" (Printf.sprintf "node %s did not catch up: fsm %s vs leader %s" id (field s "fsm") (field ls "fsm"));
+              (* C14: a node that crashed and restarted rejoins and catches up *)
+              if Hashtbl.mem m.votes ("restarted/" ^ id) then
+                violate m "C14" (Printf.sprintf "node %s, restarted after a crash, did not catch up: fsm %s vs leader %s" id (field s "fsm") (field ls "fsm"))
+            end) members
     end
   end
 
@@ -681,6 +689,7 @@ let run_trace_file (path : string) =
                 (match rest with
                  | "SUBMIT" :: node :: ty :: p :: _ ->
                      Hashtbl.replace m.submitted m.nfid (node, int_of_string ty, int_of_string p, m.step); m.nfid <- m.nfid + 1
+                 | "RESTART" :: id :: _ -> Hashtbl.replace m.votes ("restarted/" ^ id) "1"
                  | "ADD" :: _ :: id :: v :: _ ->
                      Hashtbl.replace m.votes (Printf.sprintf "confreq/%d" m.nfid) ("ADD " ^ id ^ " " ^ v);
                      m.nfid <- m.nfid + 1; m.static_membership <- false
